@@ -305,12 +305,19 @@ func (t *Transaction) With(name string, readOnly bool, createFn func() (Cachable
 		defer t.manager.checkAndPrune()
 	}
 	// We know the following locks will succeed because it is a new cache.
+	managerUnlocked := false
 	if readOnly {
 		s.mu.RLock()
 		defer s.mu.RUnlock()
 	} else {
 		// The following shared cache lock is released when the transaction is done.
 		s.mu.Lock()
+		/* The cache is locked, nobody else can use it. The manager is let go
+		 * before we wait for the transaction lock: another goroutine of this
+		 * transaction may hold that one while it waits for a cache which is
+		 * only released by a commit that in turn needs the manager. */
+		t.manager.mu.Unlock()
+		managerUnlocked = true
 		t.mu.Lock()
 		if old, ok := t.writtenCaches[name]; ok {
 			// We hold the write lock of an earlier cache under this name which
@@ -327,7 +334,9 @@ func (t *Transaction) With(name string, readOnly bool, createFn func() (Cachable
 	}
 	// By unlocking after we have the cache lock, we guarantee that the cache
 	// will not be scrapped by another goroutine.
-	t.manager.mu.Unlock()
+	if !managerUnlocked {
+		t.manager.mu.Unlock()
+	}
 	if err := f(s.item); err != nil {
 		t.failed.Store(true)
 		s.scrapped = true
